@@ -123,6 +123,8 @@ def fingerprint() -> str:
     return hashlib.sha256("\n".join(parts).encode()).hexdigest()
 
 
+BRANCHY = ("*=0x408000\nback:\nnop\nbpl back\nbra back\nbne fwd\nbeq back\nbcc fwd\nbcs back\nbmi fwd\n"
+           "fwd:\nrts\n")
 HISTORY_SNIPPETS = [
     "*=0x008000\n.macro probe_m(a) {\n.db a, a\n}\nshared:\nprobe_m(1)\n",
     ".map identifier=1 bank_range=0x00,0x3f addr_range=0x8000,0xffff mask=0x8000\n*=0x008000\nshared:\n.dl shared\n",
@@ -133,6 +135,9 @@ HISTORY_SNIPPETS = [
     "*=0x008000\n.dw nowhere\nshared:\n", "*=0x7d0000\nnop\n", "*=0x008000\nbra far\n.incbin 'pad.bin'\nfar:\n",
     "*=0x008000\nundefined_macro(1)\n", "/* open\n", "*=0x008000\n@=0x7e0000\nhere:\nbra here\n",
     "*=0x008000\n.scope shared {\nx:\n}\n.dl shared.x\n", "*=0x008000\n.for i := 0, 4 {\n.db i\n}\n",
+    # every branch mnemonic to a target whose logical address is valid under each mapping but lies at another file offset
+    BRANCHY, BRANCHY.replace("0x408000", "0x418000"),
+    ".map identifier=1 bank_range=0x40,0x6f addr_range=0,0xffff mask=0x10000\n" + BRANCHY,
 ]
 HIST_FILES = {"t.tbl": {"tbl": [("a", [1]), ("b", [2]), ("ab", [3])]}, "pad.bin": [0] * 300}
 
@@ -166,6 +171,19 @@ def cases(ctx):
         out.append({"kind": "shared-dir", "rom": "low", "src": probe, "files": dict(SHARED_FILES), "shared_dir": True,
                     "history": [{"src": h, "rom": rng.choice([None, "low"])} for h in hist], "count_empty": True,
                     "spec": {"t": "twin", "labels": True}})
+    # the same source assembled earlier under ANOTHER memory map (built-in or declared with .map): every address-valued
+    # intermediate of the earlier run (offsets of branch targets, of labels, of positions) belongs to that run only
+    usermap = ".map identifier=1 bank_range=0x40,0x6f addr_range=0,0xffff mask=0x10000 mirror_bank_range=0xc0,0xef\n"
+    crossers = [BRANCHY, BRANCHY.replace("0x408000", "0xC18000"),
+                "*=0x418000\nl:\n.dl l\njmp.l l\njsr.w l\nlda.l l,x\nm:\n.dw m\n*=0x408000\n.db 1\n*=0x41fff0\n.db 2\n"]
+    for src in crossers:
+        for hr in (None, "low", "high", "low2", "user"):
+            for pr in ("low", "high", "low2"):
+                if hr == pr or (hr is None and pr == "low"):
+                    continue
+                hist = [{"src": (usermap + src) if hr == "user" else src, "rom": None if hr == "user" else hr, "files": {}}]
+                out.append({"kind": f"cross-map:{hr}:{pr}", "rom": pr, "src": src, "files": {}, "history": hist,
+                            "count_empty": True, "spec": {"t": "twin", "labels": True}})
     for i in range(n):
         history = []
         for _ in range(rng.randrange(1, 9)):
@@ -184,9 +202,9 @@ def cases(ctx):
                                         "*=0x008000\n.dw k_a\n", "*=0x008000\nprobe_m(2)\n",
                                         "*=0x008000\n.text 'ab'\n", "*=0x018000\n.db shared\n",
                                         "*=0x008000\n.table 't.tbl'\n.text 'ba'\nshared:\n.dl shared\n",
-                                        "*=0x008000\n.table 't2.tbl'\n.text 'abab'\nend:\n.dl end\n"])}
+                                        "*=0x008000\n.table 't2.tbl'\n.text 'abab'\nend:\n.dl end\n", BRANCHY, BRANCHY])}
             probe["files"]["t2.tbl"] = {"tbl": [("a", [9])]}
-            if probe["rom"] == "low":
+            if probe["rom"] == "low" and probe["src"] != BRANCHY:
                 probe["src"] = probe["src"].replace("0x408000", "0x028000")
         out.append({"kind": "history", "rom": probe.get("rom"), "src": probe["src"], "files": probe.get("files") or {},
                     "history": history, "count_empty": True, "spec": {"t": "twin", "labels": True}})
@@ -206,6 +224,8 @@ BATTERY = [
     {"rom": None, "files": {}, "src": "*=0x018000\n.db 1, 2\n*=0x008000\n.db 3\n"},
     {"rom": "low", "files": dict(HIST_FILES), "src": "*=0x008000\nbra far\n.incbin 'pad.bin'\nfar:\n"},
     {"rom": "low", "files": {}, "src": "*=0x008000\n.macro probe_m(a) {\n.dw a\n}\n.scope shared {\nx:\n}\nprobe_m(shared.x)\n"},
+    {"rom": "low", "files": {}, "src": BRANCHY}, {"rom": "high", "files": {}, "src": BRANCHY},
+    {"rom": "low2", "files": {}, "src": BRANCHY.replace("0x408000", "0xC18000")},
 ]
 
 BASELINE = ("import json, sys\nfrom a816v import e2e\ncase = json.load(sys.stdin)\n"
